@@ -88,3 +88,31 @@ def trivially_joins(f, a, b, limit=8):
     if sorted(set(ma)) != sorted(set(mb)):
         return None
     return common[0]
+
+
+TRAVERSALS = {'recurse_single', 'recurse_multi', 'recurse_regret', 'single_player_iter'}
+
+
+def find_while(lib):
+    """solver iteration loops that are *not* `for it in 1..=N` range loops (a `while` / `loop` rewrite): the
+    outermost loop of a solver driver (solve_* function or its closures, helpers inlined) that contains a
+    traversal call and is neither a range loop nor nested in one.  Returns [(fn, header, body, exits)]."""
+    ranged = {(L.fn.name, L.header): L.body for L in find(lib)}
+    out = []
+    for f in lib.non_test_fns():
+        top = q.top(f.name).split('::')[-1]
+        if not f.name.startswith(('solve::vanilla::', 'solve::external::')) or not top.startswith('solve_'):
+            continue
+        trav = {bi for bi, t, p in f.calls() if short(p) in TRAVERSALS}
+        cands = [(h, body) for h, body in f.loops if trav & body and (f.name, h) not in ranged
+                 and not any(fn == f.name and h in b for (fn, hh), b in ranged.items())]
+        # outermost only
+        cands = [(h, body) for h, body in cands if not any(h != h2 and h in b2 for h2, b2 in cands)]
+        for h, body in cands:
+            exits = []
+            for bi in sorted(body):
+                for s_ in f.succ[bi]:
+                    if s_ in f.reach and s_ not in body and f.blocks[s_]['term']['t'] != 'unreachable':
+                        exits.append((bi, s_))
+            out.append((f, h, body, exits))
+    return out
